@@ -414,3 +414,28 @@ def tryends(a, b):
         if y:
             r += 16
     return r
+
+
+class _Base:
+    tag = 7
+
+    def __init__(self, v):
+        self.v = v
+
+    def scaled(self, k):
+        return self.v * k
+
+
+class _Derived(_Base):
+    def __init__(self, v, w):
+        super().__init__(v)
+        self.w = w
+
+    def scaled(self, k):
+        if super().scaled(k) > self.w:
+            return super().tag
+        return super(_Derived, self).scaled(k) - self.w
+
+
+def superattr(a, b):
+    return _Derived(a, b).scaled(2)
